@@ -1568,6 +1568,12 @@ class Palette(metaclass=_PaletteMeta):
             for p_cls in cls.PARENT_PALETTES:
                 p_cls.register_in_colors_conf(colors_conf)
 
+            if colors_conf.color_conf_component_is_registered(cls):
+                # registration of a parent palette in the global config
+                # updates all the synced palettes. The synced palette of this
+                # class could have been among them - cls is registered already.
+                return
+
         if cls.SYNTAX_DEFAULTS is not None:
             colors_conf.register_color_conf_component(cls.SYNTAX_DEFAULTS, cls)
 
